@@ -155,4 +155,65 @@ def signInternal (P : Params) (H G : List Nat → Nat → List Nat) (nG nH : Nat
     -- 33: σ ← sigEncode(c̃, z mod± q, h)
     | some (cTilde, z, h) => some (sigEncode (1 + bitlen (P.gamma1 - 1)) P.gamma1 P.omega cTilde z h)
 
+
+/-! ### the external interface: Algorithms 1-5
+
+`IntegerToBytes(|ctx|, 1)` is `|ctx| mod 256` (one byte); the guards make sure `|ctx| ≤ 255` before it is used.  The random bit generator of
+Algorithms 1, 2, 4 is a parameter: `none` = it returned `NULL` (the algorithm returns `⊥`, here inner `none`).  Outer `none` = a finite XOF
+prefix ran out (not an outcome of the standard). -/
+
+/-- the pre-hash functions of Algorithms 4 / 5 this library offers -/
+inductive PreHash | sha256 | sha512 | shake128
+  deriving DecidableEq, Repr
+
+/-- Algorithm 4 lines 10-22 (Algorithm 5 lines 5-17): the DER-encoded OID and `PH_M`; SHAKE128 with 256 bits of output -/
+def oidAndDigest (sha256 sha512 : List Nat → List Nat) (G : List Nat → Nat → List Nat) (M : List Nat) : PreHash → List Nat × List Nat
+  | .sha256 => ([0x06, 0x09, 0x60, 0x86, 0x48, 0x01, 0x65, 0x03, 0x04, 0x02, 0x01], sha256 M)
+  | .sha512 => ([0x06, 0x09, 0x60, 0x86, 0x48, 0x01, 0x65, 0x03, 0x04, 0x02, 0x03], sha512 M)
+  | .shake128 => ([0x06, 0x09, 0x60, 0x86, 0x48, 0x01, 0x65, 0x03, 0x04, 0x02, 0x0B], G M 32)
+
+/-- Algorithm 7 line 1 in front of the rest: `ML-DSA.Sign_internal(sk, M', rnd)` on the private-key bytes -/
+def signInternalBytes (P : Params) (H G : List Nat → Nat → List Nat) (nG nH : Nat) (attempts : Nat) (sk Mp rnd : List Nat) : Option (List Nat) :=
+  let d := skDecode (bitlen (2 * P.eta)) P.eta P.k P.l sk
+  signInternal P H G nG nH attempts d.1 d.2.1 d.2.2.1 d.2.2.2.1 d.2.2.2.2.1 d.2.2.2.2.2 Mp rnd
+
+/-- Algorithm 1 `ML-DSA.KeyGen()` -/
+def keyGen (P : Params) (H G : List Nat → Nat → List Nat) (nG nH : Nat) (rbg : Option (List Nat)) : Option (Option (List Nat × List Nat)) :=
+  match rbg with
+  | none => some none                                   -- 2-4: if ξ = NULL then return ⊥
+  | some xi => (keyGenInternal P H G nG nH xi).map some  -- 5: return ML-DSA.KeyGen_internal(ξ)
+
+/-- Algorithm 2 `ML-DSA.Sign(sk, M, ctx)` (hedged variant: `rnd` from the RBG) -/
+def sign (P : Params) (H G : List Nat → Nat → List Nat) (nG nH : Nat) (attempts : Nat) (sk M ctx : List Nat) (rbg : Option (List Nat)) :
+    Option (Option (List Nat)) :=
+  if ctx.length > 255 then some none else               -- 1-3
+  match rbg with
+  | none => some none                                   -- 5-8
+  | some rnd =>
+    let Mp := [0] ++ [ctx.length % 256] ++ ctx ++ M      -- 10: M' ← IntegerToBytes(0,1) ‖ IntegerToBytes(|ctx|,1) ‖ ctx ‖ M
+    (signInternalBytes P H G nG nH attempts sk Mp rnd).map some  -- 11
+
+/-- Algorithm 3 `ML-DSA.Verify(pk, M, σ, ctx)` -/
+def verify (P : Params) (H G : List Nat → Nat → List Nat) (nG nH : Nat) (pk M sigma ctx : List Nat) : Option Bool :=
+  if ctx.length > 255 then some false else              -- 1-3
+  verifyInternal P H G nG nH pk ([0] ++ [ctx.length % 256] ++ ctx ++ M) sigma   -- 5-6
+
+/-- Algorithm 4 `HashML-DSA.Sign(sk, M, ctx, PH)` -/
+def hashSign (P : Params) (H G : List Nat → Nat → List Nat) (sha256 sha512 : List Nat → List Nat) (nG nH : Nat) (attempts : Nat)
+    (sk M ctx : List Nat) (ph : PreHash) (rbg : Option (List Nat)) : Option (Option (List Nat)) :=
+  if ctx.length > 255 then some none else
+  match rbg with
+  | none => some none
+  | some rnd =>
+    let od := oidAndDigest sha256 sha512 G M ph             -- (OID, PH_M)
+    let Mp := [1] ++ [ctx.length % 256] ++ ctx ++ od.1 ++ od.2   -- 23: M' ← IntegerToBytes(1,1) ‖ IntegerToBytes(|ctx|,1) ‖ ctx ‖ OID ‖ PH_M
+    (signInternalBytes P H G nG nH attempts sk Mp rnd).map some
+
+/-- Algorithm 5 `HashML-DSA.Verify(pk, M, σ, ctx, PH)` -/
+def hashVerify (P : Params) (H G : List Nat → Nat → List Nat) (sha256 sha512 : List Nat → List Nat) (nG nH : Nat)
+    (pk M sigma ctx : List Nat) (ph : PreHash) : Option Bool :=
+  if ctx.length > 255 then some false else
+  let od := oidAndDigest sha256 sha512 G M ph               -- (OID, PH_M)
+  verifyInternal P H G nG nH pk ([1] ++ [ctx.length % 256] ++ ctx ++ od.1 ++ od.2) sigma
+
 end Fips204.Spec
